@@ -11,6 +11,7 @@ func init() {
 	vHarnesses["H_C04_catch"] = H_C04_catch
 	vHarnesses["H_C09_history"] = H_C09_history
 	vHarnesses["H_C11_allsol"] = H_C11_allsol
+	vHarnesses["H_C16_rel"] = H_C16_rel
 	vHarnesses["H_C18_ops"] = H_C18_ops
 	vHarnesses["H_C08_order"] = H_C08_order
 	vHarnesses["H_C08_sort"] = H_C08_sort
@@ -111,4 +112,10 @@ func H_C08_sort(inst int) {
 func H_C18_ops(inst int) {
 	i := newFull()
 	engine.VH_C18(&i.VM, inst)
+}
+
+// H_C16_rel: one relational built-in per instance; modes/sizes by case split, numbers and elements symbolic.
+func H_C16_rel(inst int) {
+	i := newFull()
+	engine.VH_C16(&i.VM, inst)
 }
